@@ -9,7 +9,6 @@ import (
 	"encoding/json"
 	"os"
 	"path"
-	"strconv"
 	"strings"
 
 	"github.com/hknutzen/Netspoc-Approve/go/pkg/vf"
@@ -56,78 +55,49 @@ func verifMutations(line string) []string {
 	return out
 }
 
-// VerifMutateLine: params cases=<dir with cases.json>, stride, offset select
-// the (case, file, line) triples of this run.
+type verifTarget struct {
+	Id   string
+	Dir  string
+	File string // relative to Dir
+	Line int
+}
+
+// VerifMutateLine: param targets=<json file with the (case, file, line)
+// triples of this run>, written by the check driver from the repository's
+// test data.
 func VerifMutateLine() {
-	dir := vf.Param("cases", "")
-	stride, _ := strconv.Atoi(vf.Param("stride", "1"))
-	offset, _ := strconv.Atoi(vf.Param("offset", "0"))
-	only := vf.Param("only", "")
-	data, err := os.ReadFile(path.Join(dir, "cases.json"))
+	data, err := os.ReadFile(vf.Param("targets", ""))
 	if err != nil {
 		panic(err)
 	}
-	var cases []verifCase
-	if err := json.Unmarshal(data, &cases); err != nil {
+	var targets []verifTarget
+	if err := json.Unmarshal(data, &targets); err != nil {
 		panic(err)
-	}
-	type target struct {
-		c     verifCase
-		file  string // relative to case dir
-		lines []string
-		idx   int
-	}
-	var targets []target
-	n := 0
-	for _, c := range cases {
-		if only != "" && !strings.Contains(c.Id, only) {
-			continue
-		}
-		switch c.Model {
-		case "ASA", "IOS", "Linux":
-		default:
-			continue // JSON / XML inputs: structure-level harnesses
-		}
-		files := []string{"device", "code/router", "code/router.raw", "code/ipv6/router", "code/ipv6/router.raw"}
-		huge := false
-		for _, f := range files {
-			if d, err := os.ReadFile(path.Join(c.Dir, f)); err == nil && len(d) > 20000 {
-				huge = true
-			}
-		}
-		if huge {
-			continue // ios_long-acl: 10000 line ACL, outside the step budget
-		}
-		for _, f := range files {
-			d, err := os.ReadFile(path.Join(c.Dir, f))
-			if err != nil {
-				continue
-			}
-			lines := strings.Split(strings.TrimRight(string(d), "\n"), "\n")
-			if len(lines) > 60 {
-				continue
-			}
-			for i, l := range lines {
-				if strings.TrimSpace(l) == "" {
-					continue
-				}
-				if n%stride == offset {
-					targets = append(targets, target{c, f, lines, i})
-				}
-				n++
-			}
-		}
 	}
 	if len(targets) == 0 {
 		vf.Assume(false)
 	}
 	vf.Cover("targets selected")
 	// one target per path group: fork over targets
-	ti := vf.FixInt(vf.Int("target", 0, len(targets)/64))
+	ti := vf.FixInt(vf.Int("target", 0, (len(targets)-1)/64))
 	tj := vf.FixInt(vf.Int("targetLow", 0, 63))
 	k := ti*64 + tj
 	vf.Assume(k < len(targets))
-	t := targets[k]
+	tg := targets[k]
+	fdata, err := os.ReadFile(path.Join(tg.Dir, tg.File))
+	if err != nil {
+		panic(err)
+	}
+	var t struct {
+		c     verifCase
+		file  string
+		lines []string
+		idx   int
+	}
+	t.c = verifCase{Id: tg.Id, Dir: tg.Dir}
+	t.file = tg.File
+	t.lines = strings.Split(strings.TrimRight(string(fdata), "\n"), "\n")
+	t.idx = tg.Line
 	muts := verifMutations(t.lines[t.idx])
 	if len(muts) == 0 {
 		vf.Assume(false)
